@@ -285,20 +285,26 @@ def naming_guards(ctx) -> None:
     # trough: per-column lengths
     g = ctx.prog.require_func("get_trough_component_names", rule)
     gv = ctx.fv(g)
+    from ..guards import raising_terms
+
+    # the guards may live in a new helper: raising terms are expressed over this function's arguments
+    first_loop = min((n.id for n in gv.cfg.nodes if n.kind == "for"), default=None)
+    terms = raising_terms(gv, first_loop) if first_loop is not None else raising_terms(gv, None)
     seen = set()
-    for n, test, pol, r in gv.raising_guards():
-        rt = gv.res.resolve(test, n.id)
-        if pol and raise_class(gv, r)[0] == "ValueError" and isinstance(rt, ast.Compare) and isinstance(rt.ops[0], ast.NotEq) and call_fname(rt.left) == "shape" and rt.left.args:
+    ok_e = False
+    for term, n, cls in terms:
+        if cls != "ValueError" or len(term) != 1:
+            continue
+        a_ = term[0]
+        rt, pol = a_.expr, a_.pol
+        if isinstance(rt, ast.Compare) and len(rt.ops) == 1 and ((isinstance(rt.ops[0], ast.NotEq) and pol) or (isinstance(rt.ops[0], ast.Eq) and not pol)) and call_fname(rt.left) == "shape" and rt.left.args:
             rhs = rt.comparators[0]
-            if isinstance(rhs, ast.Tuple) and len(rhs.elts) == 1 and is_name(rhs.elts[0], "columns") and not gv.controlling(n.id, skip_raising=True):
+            if isinstance(rhs, ast.Tuple) and len(rhs.elts) == 1 and is_name(rhs.elts[0], "columns"):
                 seen.add(show(rt.left.args[0]))
+        if isinstance(rt, ast.Call) and call_fname(rt) == "any" and pol:
+            ok_e = ok_e or ("is not None" in show(rt) and "== 0" in show(rt))
     ctx.rep.check({"column_names", "initial_volumes"} <= seen, rule, f"{g.qualname}/lengths", "per-column lists of the wrong length raise ValueError",
                   f"only {sorted(seen)} are checked against the number of columns: a per-column list of the wrong length is accepted", where=g.where())
-    ok_e = False
-    for n, test, pol, r in gv.raising_guards():
-        rt = gv.res.resolve(test, n.id)
-        if pol and raise_class(gv, r)[0] == "ValueError" and isinstance(rt, ast.Call) and call_fname(rt) == "any":
-            ok_e = "is not None" in show(rt) and "== 0" in show(rt)
     ctx.rep.check(ok_e, rule, f"{g.qualname}/names-for-empty", "a name for an empty column raises ValueError", "a column name for an empty column is not rejected", where=g.where())
 
 
